@@ -330,7 +330,7 @@ fn c12_status_command() {
     let mut root = PciRoot::new(cam);
     let (st, cmd) = root.get_status_command(DF);
     assert!(u32::from(st.bits()) == (c0 >> 16) & 0xf9b8, "C12: status half decoded wrongly");
-    assert!(u32::from(cmd.bits()) == c0 & 0x077f, "C12: command half decoded wrongly");
+    assert!(u32::from(cmd.bits()) == c0 & 0xffff, "C12: command half decoded wrongly (all 16 bits are kept)");
     let newc = Command::from_bits_truncate(kani::any());
     root.set_command(DF, newc);
     let c = &root.configuration_access;
